@@ -42,7 +42,8 @@ def _work(args):
     env.setup()
     mod = load_check(prop)
     agg = {'runs': 0, 'stats': {}, 'distinct': set(), 'virtual_s': 0.0, 'events': 0, 'violations': [],
-           'samples': [], 'digests': []}
+           'samples': [], 'digests': [], 'known_hits': {}}
+    known_preds = {k['predicate'] for k in load_known() if k.get('property') == prop and k.get('status') == 'known'}
     for i in range(start, start + count):
         s = seed_for(batch_seed, prop, i)
         faulthandler.dump_traceback_later(PER_RUN_WALL, exit=True)
@@ -62,6 +63,15 @@ def _work(args):
         agg['virtual_s'] += r.get('virtual_s', 0.0)
         agg['events'] += r.get('events', 0)
         agg['digests'].append((i, r.get('digest', '')))
+        if r['violations'] and known_preds and hasattr(mod, 'classify_known'):
+            rest = []
+            for v in r['violations']:
+                fid = mod.classify_known(script, v)
+                if fid is not None and fid in known_preds:
+                    agg['known_hits'][fid] = agg['known_hits'].get(fid, 0) + 1
+                else:
+                    rest.append(v)
+            r['violations'] = rest
         if r['violations']:
             if len(agg['violations']) < 4:
                 agg['violations'].append({'i': i, 'seed': s, 'script': script, 'violations': r['violations']})
@@ -88,11 +98,14 @@ def load_known():
         return []
 
 
-def violation_class_in(result_dict, cls):
-    return any(v['cls'] == cls for v in result_dict['violations'])
+def violation_class_in(result_dict, cls, script=None, is_known=None):
+    for v in result_dict['violations']:
+        if v['cls'] == cls and not (is_known is not None and is_known(script, v)):
+            return True
+    return False
 
 
-def minimise(mod, script, cls, wall=60.0):
+def minimise(mod, script, cls, wall=60.0, is_known=None):
     from seams import env
     env.setup()
     deadline = time.time() + wall
@@ -107,7 +120,7 @@ def minimise(mod, script, cls, wall=60.0):
                 r = _execute(mod, cand)
         except Exception:
             return False
-        return violation_class_in(r, cls)
+        return violation_class_in(r, cls, cand, is_known)
 
     if not isinstance(script.get('ops'), list):
         return script
@@ -123,7 +136,7 @@ def minimise(mod, script, cls, wall=60.0):
                     r = _execute(mod, cand)
             except Exception:
                 continue
-            if violation_class_in(r, cls):
+            if violation_class_in(r, cls, cand, is_known):
                 out = cand
     return out
 
@@ -177,6 +190,7 @@ def run_check(prop: str, tier: str, batch_seed: int, runs_override=None) -> int:
            'samples': []}
     harness_error = None
     cut_short = False
+    known_hit = {}
     ctx = multiprocessing.get_context('fork')
     with ProcessPoolExecutor(max_workers=workers, mp_context=ctx) as ex:
         pending = set()
@@ -198,6 +212,8 @@ def run_check(prop: str, tier: str, batch_seed: int, runs_override=None) -> int:
                 agg['virtual_s'] += a['virtual_s']
                 agg['events'] += a['events']
                 agg['violations'].extend(a['violations'])
+                for k, v in a.get('known_hits', {}).items():
+                    known_hit[k] = known_hit.get(k, 0) + v
                 if len(agg['samples']) < 3:
                     agg['samples'].extend(a['samples'][:3 - len(agg['samples'])])
                 if time.time() - t0 > wall:
@@ -216,7 +232,6 @@ def run_check(prop: str, tier: str, batch_seed: int, runs_override=None) -> int:
 
     # ---- violations: known-finding filter, minimise, fresh-process confirmation
     known = [k for k in load_known() if k.get('property') == prop and k.get('status') == 'known']
-    known_hit = {}
     reported = []
     seen_cls = set()
     agg['violations'].sort(key=lambda v: v['i'])
@@ -226,24 +241,24 @@ def run_check(prop: str, tier: str, batch_seed: int, runs_override=None) -> int:
             if fid is not None and any(k['predicate'] == fid for k in known):
                 known_hit[fid] = known_hit.get(fid, 0) + 1
                 continue
-            if v['cls'] in seen_cls:
+            if v['cls'] in seen_cls or len(seen_cls) >= 3:
                 continue
             seen_cls.add(v['cls'])
+            def is_known(sc, vv):
+                if not hasattr(mod, 'classify_known'):
+                    return False
+                f = mod.classify_known(sc, vv)
+                return f is not None and any(k['predicate'] == f for k in known)
             try:
-                small = minimise(mod, rec['script'], v['cls'], wall=budget.get('min_wall', 60))
+                small = minimise(mod, rec['script'], v['cls'], wall=budget.get('min_wall', 60), is_known=is_known)
             except Exception:
                 traceback.print_exc()
                 small = rec['script']
-            # after minimisation the known-finding predicate may apply to the reduced case
             from seams import env
             env.setup()
             with env.quiet():
                 r2 = _execute(mod, small)
-            v2 = next((x for x in r2['violations'] if x['cls'] == v['cls']), v)
-            fid = mod.classify_known(small, v2) if hasattr(mod, 'classify_known') else None
-            if fid is not None and any(k['predicate'] == fid for k in known):
-                known_hit[fid] = known_hit.get(fid, 0) + 1
-                continue
+            v2 = next((x for x in r2['violations'] if x['cls'] == v['cls'] and not is_known(small, x)), v)
             path = write_replay(prop, rec['seed'], small, v['cls'], v2['detail'])
             if confirm_in_fresh_process(path):
                 reported.append((v['cls'], path, v2['detail']))
